@@ -12,6 +12,12 @@ import time
 VERIF_DIR = os.path.dirname(os.path.dirname(os.path.abspath(__file__)))
 
 
+def out_dir() -> str:
+    """Where evidence/ and replays/ are written: /verif, unless a self-test
+    redirects its scratch runs elsewhere so they cannot clobber real evidence."""
+    return os.environ.get("VERIF_OUT_DIR") or VERIF_DIR
+
+
 # ----------------------------------------------------------------- seeds
 def verif_seed() -> int:
     try:
@@ -96,7 +102,7 @@ def match_known(prop: str, signature: dict) -> dict | None:
 
 # ----------------------------------------------------------------- replay files
 def write_replay(prop: str, name: str, body: dict) -> str:
-    d = os.path.join(VERIF_DIR, "replays")
+    d = os.path.join(out_dir(), "replays")
     os.makedirs(d, exist_ok=True)
     path = os.path.join(d, f"{prop}-{name}.json")
     body = dict(body)
@@ -140,7 +146,7 @@ class Evidence:
             "wall_s": round(wall, 2),
             "violations": self.violations,
         }
-        d = os.path.join(VERIF_DIR, "evidence")
+        d = os.path.join(out_dir(), "evidence")
         os.makedirs(d, exist_ok=True)
         path = os.path.join(d, f"{self.prop}.json")
         tmp = path + ".tmp"
